@@ -24,7 +24,7 @@ def confirm(pid):
         print(pid, "no MUT dir"); return
     wt = tempfile.mkdtemp(prefix=f"confirm_{pid}_", dir="/tmp")
     os.rmdir(wt)
-    subprocess.check_call(["git", "-C", "/repo", "worktree", "add", "-q", "--detach", wt, "HEAD"])
+    subprocess.check_call(["git", "-C", "/repo", "worktree", "add", "-q", "--detach", wt, os.environ.get("MUT_REV", "HEAD")])
     try:
         env = {"PYTHONPATH": wt, "PYTHONDONTWRITEBYTECODE": "1"}
         for k in sorted(os.listdir(base)):
